@@ -661,3 +661,76 @@ def rule_nidx(prog: Program, col: Collector) -> None:
         raise AnalysisError("N-idx: generators module not found")
     if nsite == 0:
         col.ok("-", "generators", f"no randomly drawn subscript in {nfun} generator functions (positive control matched)")
+
+
+# --------------------------------------------------------------------------------------
+# N-range: a draw `rng.integers(lo, hi)` has a non-empty range for the smallest player count (3)
+# --------------------------------------------------------------------------------------
+
+def _fold_n(t, n_terms: tuple, n: int):
+    """Constant folding of an integer expression in the player count (None when something else occurs)."""
+    if not isinstance(t, tuple):
+        return None
+    if t in n_terms:
+        return n
+    if t[0] == "const" and isinstance(t[1], int) and not isinstance(t[1], bool):
+        return t[1]
+    if t[0] == "bin" and t[1] in ("+", "-", "*", "//", "**"):
+        a, b = _fold_n(t[2], n_terms, n), _fold_n(t[3], n_terms, n)
+        if a is None or b is None:
+            return None
+        try:
+            return {"+": a + b, "-": a - b, "*": a * b, "//": a // b if b else None, "**": a ** b if 0 <= b < 32 else None}[t[1]]
+        except Exception:
+            return None
+    if t[0] == "un" and t[1] == "-":
+        a = _fold_n(t[2], n_terms, n)
+        return None if a is None else -a
+    if is_call_to(t, "int") and len(t[2]) == 1:
+        return _fold_n(t[2][0], n_terms, n)
+    return None
+
+
+def rule_nrange(prog: Program, col: Collector) -> None:
+    col.rule("N-range", "every integer draw whose bounds are expressions in the player count has a non-empty range for n = 3, 4, ... (lo < hi)", 3)
+    nsite = 0
+    for ref in prog.all_functions():
+        if not ref.module.name.endswith(".generators"):
+            continue
+        pp = ref.positional_params()
+        if not pp or "player" not in pp[0]:
+            continue
+        npar = (("param", pp[0]),)
+        ft = fterms(prog, ref)
+        for e in ft.calls():
+            if e.recv is None or e.name not in ("integers", "randrange", "randint"):
+                continue
+            kw = e.kwargs
+            if len(e.args) == 1:
+                lo, hi = ("const", 0), e.args[0]
+            elif len(e.args) >= 2:
+                lo, hi = e.args[0], e.args[1]
+            else:
+                continue
+            if "high" in kw:
+                hi = kw["high"]
+            inclusive = e.name == "randint" or kw.get("endpoint") == ("const", True)
+            worst = None
+            for n in (3, 4, 5, 8):
+                a, b = _fold_n(lo, npar, n), _fold_n(hi, npar, n)
+                if a is None or b is None:
+                    worst = "unknown"
+                    break
+                if (b < a) if inclusive else (b <= a):
+                    worst = (n, a, b)
+                    break
+            if worst == "unknown":
+                continue          # bounds that do not depend on the player count alone are not this rule's business
+            nsite += 1
+            if worst is None:
+                col.ok(ref.where(e.node), ref.short, f"{short(e.term, 60)}: non-empty for n = 3, 4, 5, 8")
+            else:
+                col.violation(ref.where(e.node), ref.short, "empty-draw-range", f"{short(e.term, 60)} has the empty range [{worst[1]}, {worst[2]}) for {worst[0]} players",
+                              "numpy raises `ValueError: low >= high` on every call: the registry entry cannot be invoked for that player count, whatever the seed")
+    if nsite == 0:
+        raise AnalysisError("N-range: no integer draw with bounds in the player count found (anchor vanished)")
